@@ -1,21 +1,23 @@
 (** Theorems about the blob (value log) bookkeeping model [Model/Blob.v]
     (properties C08 and C09).
 
-    Contents
+    Contents (in file order)
       1. the invariant [BInvG d] / [BInv] and its decidable checker
       2. the statistics map
-      3. pointers of entry lists and permutations
+      3. pointers of entry lists, tables and permutations
       4. garbage: what removing pointers does to the brute-force count
       5. dead files
+      8a. [with_merge]: the general preservation lemma
+      9. dropping tables
       6. the blob file writer
       7. flush
-      8. [with_merge]: the general preservation lemma; standard merge
-      9. dropping tables
+      8b. the stream's accounting in terms of pointers; standard merge
+     12. statistics are exact; dead iff unreferenced; when files leave the version
      10. relocation
-     11. compaction filter with separation
-     12. statistics are exact; dead iff unreferenced; timing of removal
+     14a. replayed tests     14b. reopen; refuted statements
      13. transparency
-     14. refuted statements and replayed tests *)
+     11. compaction filter with separation
+     15. instances of the main theorems; Print Assumptions *)
 From LsmV Require Import Model.Entry Model.Stream Model.Blob Proofs.Newest Proofs.Stream.
 From Coq Require Import Permutation.
 Open Scope N_scope.
@@ -2361,7 +2363,7 @@ Proof.
 Qed.
 
 (** when blob seqnos agree with the entries' the two agree *)
-Example relocate_scan_agrees :
+Example relocate_scan_agrees_partial :
   let v := BlobEx.p4 in
   let items := merge_input [3;4] v in
   relocate_scan 1000 [0] (scan_of (b_blobs v) [0]) (bw_new 1) items
@@ -2853,3 +2855,185 @@ Proof.
   - destruct (with_merge_aux v tids (split out') (gc_of_log log) (ow_files ow) (dead_ids v)
                 nid (ow_next nid ow) IB F6) as (_ & _ & C & _); [intros bf HI; apply (F2 bf HI) | exact C].
 Qed.
+
+(** ** the timing of removal, for every kind of merge: whatever is in [drops] -- the files
+    dead by the statistics of the version the merge starts from, and the rewritten files --
+    is absent from the result *)
+Lemma with_merge_drops v tids newtabs diff newfiles drops f :
+  In f drops -> ~ In f (map bf_id (b_blobs (with_merge v tids newtabs diff newfiles drops))).
+Proof.
+  intros Hd C. rewrite with_merge_blobs in C. apply in_map_iff in C. destruct C as (b & E & Hb).
+  apply filter_In in Hb. destruct Hb as [_ ND]. apply negb_true_iff, memN_false in ND.
+  apply ND. now rewrite E.
+Qed.
+
+Theorem dead_removed_by_relocating_merge W evict flt tids rw target nid split v bf :
+  tids_known tids v = true -> In bf (b_blobs v) -> is_dead (b_gc v) bf = true \/ In (bf_id bf) rw ->
+  ~ In (bf_id bf) (map bf_id (b_blobs (fst (blob_merge_relocating W evict flt tids rw target nid split v)))).
+Proof.
+  intros KN HI H. unfold blob_merge_relocating. rewrite KN. cbn [negb].
+  destruct (run_stream _ _ _ _) as [out log]. destruct (relocate _ _ _ _ _) as [out' w].
+  unfold bw_finish. cbn [fst]. apply with_merge_drops. apply in_or_app. destruct H as [H|H]; [right | now left].
+  apply in_dead_ids. exists bf. auto.
+Qed.
+
+Theorem dead_removed_by_filter_merge W evict uf thr target nid tids split v bf :
+  tids_known tids v = true -> In bf (b_blobs v) -> is_dead (b_gc v) bf = true ->
+  ~ In (bf_id bf) (map bf_id (b_blobs (fst (blob_merge_filter W evict uf thr target nid tids split v)))).
+Proof.
+  intros KN HI H. unfold blob_merge_filter. rewrite KN. cbn [negb].
+  destruct (run_stream _ _ _ _) as [out log]. destruct (fsep _ _ _ _ _) as [out' ow].
+  destruct ow as [w|]; unfold bw_finish; cbn [fst]; apply with_merge_drops;
+    apply in_dead_ids; exists bf; auto.
+Qed.
+
+(** NOT PROVED (statement kept): the scanner-faithful relocation agrees with the lookup
+    model whenever the blobs' stored seqnos are those of the entries pointing to them:
+
+      Theorem relocate_scan_agrees : forall d v rw target w items,
+        BInvG d v -> ssorted items = true ->
+        (forall e p, In e items -> ptr_of e = Some p -> In p (vptrs v)) ->
+        (forall e p fr, In e items -> ptr_of e = Some p ->
+           find_frame (b_blobs v) (pf p) (po p) = Some fr -> fr_seq fr = seq e) ->
+        (forall bf, In bf (b_blobs v) -> [frames bf] ascending by (key, seqno desc) and by offset) ->
+        relocate_scan target rw (scan_of (b_blobs v) rw) w items
+        = Some (relocate target (b_blobs v) rw w items).
+
+    What is missing is the order argument (a blob needed by a later entry is never skipped
+    by [drain_blobs]).  [relocate_scan_agrees_partial] (section 14b) is a computed instance,
+    [relocate_scan_refuted] shows the seqno hypothesis cannot be dropped. *)
+
+(** * 15. Instances of the main theorems (hypotheses checked, theorem applied) *)
+
+Lemma one_split_ok id old : ~ In id (map fst old) -> split_ok (BlobEx.one id) old.
+Proof.
+  intros NI l. unfold BlobEx.one. destruct l as [|e l]; cbn [is_nil map snd fst concat].
+  - repeat split; [constructor | intros t []].
+  - rewrite app_nil_r. repeat split.
+    + constructor; [intros [] | constructor].
+    + intros t [<-|[]]. exact NI.
+Qed.
+
+Ltac no_ind := intros e He; cbn in He; repeat (destruct He as [<-|He]; [discriminate|]); contradiction.
+Ltac not_in := cbn; intros H; repeat (destruct H as [H|H]; [discriminate|]); contradiction.
+
+Example blob_flush_inv_ex : BInv (fst BlobEx.m2) /\ ids_below 2 (fst BlobEx.m2).
+Proof.
+  assert (BInv (fst BlobEx.m1) /\ ids_below 1 (fst BlobEx.m1)) as [I1 B1].
+  { destruct (blob_flush_inv true 4 1000 0 0 (BlobEx.one 0)
+                [BlobEx.V BlobEx.kbig 0 BlobEx.big; BlobEx.V BlobEx.ksmol 0 [1;2]] bv_empty)
+      as (A & B & _).
+    - by_check.
+    - apply ids_below_b_spec. reflexivity.
+    - no_ind.
+    - apply one_split_ok. intros [].
+    - split; [exact A | exact B]. }
+  destruct (blob_flush_inv true 4 1000 0 1 (BlobEx.one 1) [BlobEx.V BlobEx.kbig 1 BlobEx.big2]
+              (fst BlobEx.m1) I1 B1) as (A & B & _).
+  - no_ind.
+  - apply one_split_ok. not_in.
+  - split; [exact A | exact B].
+Qed.
+
+Example blob_merge_standard_inv_ex : BInv BlobEx.m3.
+Proof.
+  apply blob_merge_standard_inv.
+  - apply blob_flush_inv_ex.
+  - apply frames_pos_b_spec. reflexivity.
+  - apply no_filter_plain.
+  - apply one_split_ok. not_in.
+Qed.
+
+Example blob_drop_tables_inv_ex : BInvG false (blob_drop_tables [2] BlobEx.p3).
+Proof.
+  apply (blob_drop_tables_inv true); [by_check | apply frames_pos_b_spec; reflexivity].
+Qed.
+
+Example blob_merge_relocating_inv_ex : BInv (fst BlobEx.p5) /\ ids_below 2 (fst BlobEx.p5).
+Proof.
+  destruct (blob_merge_relocating_inv true 1000 true no_filter [3;4]
+              (pick_rewrite 1 100 1 1 [3;4] BlobEx.p4) 1000 1 (BlobEx.one 5) BlobEx.p4) as (A & B & _).
+  - by_check.
+  - apply frames_pos_b_spec. reflexivity.
+  - apply ids_below_b_spec. reflexivity.
+  - apply no_filter_plain.
+  - apply one_split_ok. not_in.
+  - apply pick_rewrite_ok.
+  - split; [exact A | exact B].
+Qed.
+
+(** compaction/filter.rs: a replaced value that crosses the threshold goes to a new blob
+    file under the OLD key and seqno; a replaced pointer's blob becomes garbage *)
+Definition uf1 (e : entry) : uverdict :=
+  if key_eqb (ukey e) BlobEx.ksmol then UReplace [5;5;5;5;5]
+  else if key_eqb (ukey e) BlobEx.kbig then UReplace [1] else UKeep.
+Definition f1 := blob_merge_filter 1000 true uf1 4 1000 1 [0] (BlobEx.one 1) (fst BlobEx.m1).
+Example blob_merge_filter_ex :
+  b_tables (fst f1) = [(1, [BlobEx.V BlobEx.kbig 0 [1]; mk_ind BlobEx.ksmol 0 1 0 5 5])] /\
+  map (fun bf => (bf_id bf, map (fun fr => (fr_key fr, fr_seq fr, fr_val fr)) (frames bf))) (b_blobs (fst f1))
+  = [(0, [(BlobEx.kbig, 0, BlobEx.big)]); (1, [(BlobEx.ksmol, 0, [5;5;5;5;5])])] /\
+  b_gc (fst f1) = [(0, mkG 1 8 8)] /\ snd f1 = 2 /\
+  resolve_all (fst f1) (concat (map snd (b_tables (fst f1))))
+  = [BlobEx.V BlobEx.kbig 0 [1]; BlobEx.V BlobEx.ksmol 0 [5;5;5;5;5]].
+Proof. vm_compute. repeat split; reflexivity. Qed.
+
+Example blob_merge_filter_inv_ex : BInv (fst f1).
+Proof.
+  destruct (blob_merge_filter_inv true 1000 true uf1 4 1000 1 [0] (BlobEx.one 1) (fst BlobEx.m1)) as (A & _).
+  - by_check.
+  - apply frames_pos_b_spec. reflexivity.
+  - apply ids_below_b_spec. reflexivity.
+  - apply one_split_ok. not_in.
+  - exact A.
+Qed.
+
+Example stale_bytes_exact_ex :
+  stale_bytes (b_gc BlobEx.c6) = 32 /\
+  sumN (map (fun bf => g_disk (garbage_of BlobEx.c6 (bf_id bf))) (b_blobs BlobEx.c6)) = 32.
+Proof. vm_compute. split; reflexivity. Qed.
+
+Example is_dead_iff_ex :
+  map (is_dead (b_gc BlobEx.c6)) (b_blobs BlobEx.c6) = [true; true; true; true; false] /\
+  map pf (vptrs BlobEx.c6) = [4].
+Proof. vm_compute. split; reflexivity. Qed.
+
+Example blob_transparent_ex :
+  let v := fst BlobEx.m2 in
+  resolve_all BlobEx.m3 (concat (map snd (b_tables BlobEx.m3)))
+  = fst (run_stream 1000 true no_filter (resolve_all v (merge_input [0;1] v))) /\
+  resolve_all BlobEx.m3 (concat (map snd (b_tables BlobEx.m3)))
+  = [BlobEx.V BlobEx.kbig 1 BlobEx.big2; BlobEx.V BlobEx.ksmol 0 [1;2]].
+Proof. vm_compute. split; reflexivity. Qed.
+
+(** * Assumptions *)
+Print Assumptions check_binv_g_iff.
+Print Assumptions check_binv_iff.
+Print Assumptions blob_flush_inv.
+Print Assumptions blob_merge_standard_inv.
+Print Assumptions blob_merge_standard_aux.
+Print Assumptions blob_drop_tables_inv.
+Print Assumptions blob_drop_tables_aux.
+Print Assumptions blob_drop_tables_no_dead.
+Print Assumptions blob_merge_relocating_inv.
+Print Assumptions pick_rewrite_ok.
+Print Assumptions blob_merge_filter_inv.
+Print Assumptions stale_bytes_exact.
+Print Assumptions is_dead_iff.
+Print Assumptions blob_merge_standard_keeps_iff.
+Print Assumptions dead_removed_by_merge.
+Print Assumptions blob_drop_tables_keeps_iff.
+Print Assumptions dead_removed_by_drop.
+Print Assumptions dead_removed_by_relocating_merge.
+Print Assumptions dead_removed_by_filter_merge.
+Print Assumptions reopen_counter_fresh.
+Print Assumptions blob_resolves.
+Print Assumptions blob_flush_transparent.
+Print Assumptions blob_merge_transparent.
+Print Assumptions blob_merge_relocating_transparent.
+Print Assumptions blob_drop_tables_inv_refuted.
+Print Assumptions gc_pruned_drop_refuted.
+Print Assumptions reopen_ghost_refuted.
+Print Assumptions reloc_ineligible_refuted.
+Print Assumptions is_dead_zero_len_refuted.
+Print Assumptions relocate_scan_refuted.
+Print Assumptions blob_transparent_refuted.
